@@ -1990,7 +1990,11 @@ coap_retransmit(coap_context_t *context, coap_queue_t *node) {
                      (unsigned)(next_delay * 1000 / COAP_TICKS_PER_SECOND));
     }
 
-    if (node->session->con_active) {
+    /*
+     * Release the NSTART slot of a Confirmable for coap_send_pdu() to take it
+     * again.  A delayed multicast response (never a Confirmable) holds no slot.
+     */
+    if (!node->is_mcast && node->session->con_active) {
       node->session->con_active--;
       released = 1;
     }
